@@ -214,3 +214,214 @@ def read(impl_dir):
         return extract(src)
     except SyntaxError as e:
         raise TranslateError("util.py does not parse: %s" % e)
+
+# ----------------------------------------------------------------------------- control skeleton
+ERRS = {"ValueError": "EValue", "IndexError": "EIndex", "RuntimeError": "ERuntime", "TypeError": "EType", "KeyError": "EKey"}
+
+
+def _raise_class(st):
+    if isinstance(st, ast.Raise) and isinstance(st.exc, ast.Call) and isinstance(st.exc.func, ast.Name) \
+            and st.exc.func.id in ERRS:
+        return ERRS[st.exc.func.id]
+    raise TranslateError("expected `raise <Error>(...)`, found: %s" % ast.unparse(st))
+
+
+def _body(fn):
+    """statements of a function without its docstring"""
+    b = fn.body
+    if b and isinstance(b[0], ast.Expr) and isinstance(b[0].value, ast.Constant) and isinstance(b[0].value.value, str):
+        b = b[1:]
+    return b
+
+
+def _not_none(test):
+    """`<name> is not None` -> name"""
+    if isinstance(test, ast.Compare) and len(test.ops) == 1 and isinstance(test.ops[0], ast.IsNot) \
+            and isinstance(test.comparators[0], ast.Constant) and test.comparators[0].value is None:
+        return _u(test.left)
+    return None
+
+
+KW = {"nperbin": "KwNperbin", "binsize": "KwBinsize", "nbin": "KwNbin"}
+
+
+def _fexpr(node, names):
+    """float expression of the edge computation -> Model.fexpr"""
+    s = _u(node)
+    if s in names:
+        return names[s]
+    if isinstance(node, ast.Constant) and isinstance(node.value, (int, float)) and not isinstance(node.value, bool):
+        return "(FConst (%s)%%float)" % float(node.value).hex()
+    if isinstance(node, ast.BinOp) and isinstance(node.op, (ast.Add, ast.Mult)):
+        return "(%s %s %s)" % ("FAdd" if isinstance(node.op, ast.Add) else "FMul", _fexpr(node.left, names), _fexpr(node.right, names))
+    raise TranslateError("unrecognised edge expression: %s" % ast.unparse(node))
+
+
+def extract_skel(src):
+    tree = ast.parse(src)
+    sk = {}
+    # ---- Binner.__init__: the two length errors
+    init = _find_class_func(tree, "Binner", "__init__")
+    lens = []
+    for n in ast.walk(init):
+        if isinstance(n, ast.If) and _u(n.test) in ("self.y.size!=self.x.size", "self.weights.size!=self.x.size"):
+            if len(n.body) != 1 or n.orelse:
+                raise TranslateError("unexpected length check in Binner.__init__")
+            lens.append((_u(n.test), _raise_class(n.body[0])))
+    if [t for t, _ in lens] != ["self.y.size!=self.x.size", "self.weights.size!=self.x.size"]:
+        raise TranslateError("Binner.__init__: expected the y and the weights length checks, found %s" % lens)
+    sk["len_errors"] = "(%s, %s)" % (lens[0][1], lens[1][1])
+    # ---- dohist
+    dh = _body(_find_class_func(tree, "Binner", "dohist"))
+    defaults = {a.arg: _u(d) for a, d in zip(_find_class_func(tree, "Binner", "dohist").args.args[1:],
+                                             _find_class_func(tree, "Binner", "dohist").args.defaults)}
+    if defaults != {"binsize": "None", "nbin": "None", "nperbin": "None", "min": "None", "max": "None", "rev": "False",
+                    "mergelast": "True", "calc_stats": "True"}:
+        raise TranslateError("dohist defaults changed: %s" % defaults)
+    if len(dh) != 5:
+        raise TranslateError("dohist: expected 5 statements, found %d" % len(dh))
+    sk["clear_first"] = _u(dh[0]) == "self.clear()"
+    sk["y_forces_rev"] = isinstance(dh[1], ast.If) and _not_none(dh[1].test) == "self.y" and _u(dh[1].body[0]) == "rev=True" \
+        and len(dh[1].body) == 1 and not dh[1].orelse
+    sk["limits_first"] = _u(dh[2]) == "self._get_minmax_and_indices(min=min,max=max)"
+    chain = dh[3]
+    if not (isinstance(chain, ast.If) and _not_none(chain.test) == "nperbin"
+            and _u(chain.body[0]) == "self._hist_by_num(nperbin,mergelast=mergelast)" and len(chain.body) == 1
+            and len(chain.orelse) == 1 and isinstance(chain.orelse[0], ast.If)):
+        raise TranslateError("dohist: keyword chain does not start with `if nperbin is not None: self._hist_by_num(...)`")
+    second = chain.orelse[0]
+    if not (_u(second.test) in ("nbinisnotNoneorbinsizeisnotNone", "binsizeisnotNoneornbinisnotNone")
+            and _u(second.body[0]) == "self._hist_by_binsize_or_nbin(binsize,nbin,rev)" and len(second.body) == 1
+            and len(second.orelse) == 1):
+        raise TranslateError("dohist: second link of the keyword chain changed: %s" % ast.unparse(second.test))
+    sk["none_error"] = _raise_class(second.orelse[0])
+    if not (isinstance(dh[4], ast.If) and _u(dh[4].test) == "calc_stats" and _u(dh[4].body[0]) == "self.calc_stats()"
+            and len(dh[4].body) == 1 and not dh[4].orelse):
+        raise TranslateError("dohist: expected `if calc_stats: self.calc_stats()` last")
+    # ---- _hist_by_binsize_or_nbin: which of binsize / nbin is looked at first
+    hb = _body(_find_class_func(tree, "Binner", "_hist_by_binsize_or_nbin"))
+    c0 = hb[0]
+    order = ["nperbin"]
+    if not isinstance(c0, ast.If):
+        raise TranslateError("_hist_by_binsize_or_nbin does not start with the keyword test")
+    k1 = _not_none(c0.test)
+    if k1 not in ("binsize", "nbin") or len(c0.orelse) != 1 or not isinstance(c0.orelse[0], ast.If):
+        raise TranslateError("_hist_by_binsize_or_nbin: unexpected first test %s" % ast.unparse(c0.test))
+    k2 = _not_none(c0.orelse[0].test)
+    if {k1, k2} != {"binsize", "nbin"}:
+        raise TranslateError("_hist_by_binsize_or_nbin: unexpected second test")
+    order += [k1, k2]
+    sk["binner_order"] = "[" + "; ".join(KW[k] for k in order) + "]"
+    for branch, key in ((c0, k1), (c0.orelse[0], k2)):
+        txt = [_u(t) for t in branch.body]
+        want = (["binsize=float(binsize)", "nbin=np.int64((self.dmax-self.dmin)/binsize)+1"] if key == "binsize"
+                else ["nbin=int(nbin)", "binsize=float(self.dmax-self.dmin)/nbin"])
+        if txt != want:
+            raise TranslateError("_hist_by_binsize_or_nbin: the %s branch computes %s" % (key, txt))
+    # ---- _do_hist: weights force the reverse indices
+    doh = _body(_find_class_func(tree, "Binner", "_do_hist"))
+    sk["w_forces_rev"] = _u(doh[0]) == "dorev=rev" and isinstance(doh[1], ast.If) and _not_none(doh[1].test) == "self.weights" \
+        and [_u(t) for t in doh[1].body] == ["dorev=True"] and not doh[1].orelse
+    # ---- histogram(): default bin size, nbin drops it, more implies rev
+    hf = [n for n in tree.body if isinstance(n, ast.FunctionDef) and n.name == "histogram"]
+    if len(hf) != 1:
+        raise TranslateError("top-level histogram not found")
+    hf = hf[0]
+    hd = {a.arg: d for a, d in zip(hf.args.args[-len(hf.args.defaults):], hf.args.defaults)}
+    if _u(hd["nbin"]) != "None" or _u(hd["nperbin"]) != "None" or _u(hd["mergelast"]) != "True" or _u(hd["rev"]) != "False" \
+            or _u(hd["more"]) != "False":
+        raise TranslateError("histogram defaults changed")
+    sk["hist_default_bs"] = "(%s)%%float" % float(_num(hd["binsize"])).hex()
+    hb2 = _body(hf)
+    sk["hist_nbin_over_bs"] = isinstance(hb2[0], ast.If) and _not_none(hb2[0].test) == "nbin" \
+        and [_u(t) for t in hb2[0].body] == ["binsize=None"] and not hb2[0].orelse
+    sk["more_forces_rev"] = isinstance(hb2[1], ast.If) and _u(hb2[1].test) == "more" \
+        and [_u(t) for t in hb2[1].body] == ["rev=True"] and not hb2[1].orelse
+    # ---- calc_stats: the tests on keys and the edges
+    cs = _body(_find_class_func(tree, "Binner", "calc_stats"))
+    if not (isinstance(cs[0], ast.If) and _u(cs[0].test) == "'hist'notinself" and len(cs[0].body) == 1):
+        raise TranslateError("calc_stats does not start with the 'hist' test")
+    sk["no_hist_error"] = _raise_class(cs[0].body[0])
+    edge_if = [n for n in cs if isinstance(n, ast.If) and _u(n.test) == "'nperbin'inself"]
+    if len(edge_if) != 1:
+        raise TranslateError("calc_stats: `if \"nperbin\" in self` not found")
+    e = edge_if[0]
+    sk["num_skips_edges"] = len(e.body) == 1 and isinstance(e.body[0], ast.Pass)
+    est = [t for t in e.orelse if isinstance(t, ast.Assign)]
+    etxt = [_u(t.targets[0]) for t in est]
+    if etxt != ["low", "low", "high", "center", "self[xpref+'low']", "self[xpref+'high']", "self[xpref+'center']"] \
+            or _u(est[0].value) != "np.arange(nhist,dtype='f8')" or len(est) != len(e.orelse):
+        raise TranslateError("calc_stats: edge block changed: %s" % etxt)
+    sk["edges"] = "(%s, %s, %s)" % (
+        _fexpr(est[1].value, {"self.dmin": "FDmin", "low": "FIdx", "self['binsize']": "FBs"}),
+        _fexpr(est[2].value, {"low": "FLow", "self['binsize']": "FBs"}),
+        _fexpr(est[3].value, {"low": "FLow", "self['binsize']": "FBs"}))
+    for t, want in zip(est[4:], ("low", "high", "center")):
+        if _u(t.value) != want:
+            raise TranslateError("calc_stats stores %s under %s" % (ast.unparse(t.value), ast.unparse(t.targets[0])))
+    rev_if = [n for n in cs if isinstance(n, ast.If) and _u(n.test) == "'rev'inself"]
+    sk["stats_iff_rev"] = len(rev_if) == 1 and not rev_if[0].orelse and cs[-1] is rev_if[0]
+    singles = [n for n in ast.walk(rev_if[0]) if isinstance(n, ast.If) and isinstance(n.test, ast.Compare)
+               and _u(n.test.left) == "w.size"] if rev_if else []
+    if len(singles) != 1 or not isinstance(singles[0].test.ops[0], ast.Eq):
+        raise TranslateError("calc_stats: the single-member test changed")
+    sk["single_size"] = "%d" % _num(singles[0].test.comparators[0])
+    # ---- _hist_by_num / _merge_last: when the last bin is merged
+    hn = _body(_find_class_func(tree, "Binner", "_hist_by_num"))
+    last = hn[-1]
+    sk["merge_if_last_differs"] = isinstance(last, ast.If) and _u(last.test) == "hist[-1]!=nperbinandmergelast" \
+        and [_u(t) for t in last.body] == ["self._merge_last()"] and not last.orelse
+    ml = _body(_find_class_func(tree, "Binner", "_merge_last"))
+    guard = [n for n in ml if isinstance(n, ast.If)]
+    if not (len(guard) == 1 and isinstance(guard[0].test, ast.Compare) and _u(guard[0].test.left) == "nbin"
+            and isinstance(guard[0].test.ops[0], ast.Lt) and len(guard[0].body) == 1 and isinstance(guard[0].body[0], ast.Return)):
+        raise TranslateError("_merge_last: guard `if nbin < K: return` not found")
+    sk["merge_min"] = "%d" % _num(guard[0].test.comparators[0])
+    # ---- _get_minmax_and_indices: the empty selection
+    gm = _find_class_func(tree, "Binner", "_get_minmax_and_indices")
+    es = [n for n in ast.walk(gm) if isinstance(n, ast.If) and _u(n.test) == "w.size==0"]
+    if len(es) != 1 or len(es[0].body) != 1:
+        raise TranslateError("_get_minmax_and_indices: the empty-selection test changed")
+    sk["empty_sel_error"] = _raise_class(es[0].body[0])
+    # ---- (P) statement sequences that are pinned, not translated: the remap loop and _merge_last's slicing
+    pins = {
+        "_hist_by_num": ["ind=np.arange(self['wsort'].size)", "inds=ind", "bsize=float(nperbin)", "indmax=ind[-1]", "indmin=0",
+                         "nbin=np.int64((indmax-indmin)/bsize)+1", "f8ind=np.atleast_1d(ind).astype(np.float64)",
+                         "hist,rev=self._do_hist(f8ind,0,inds,bsize,nbin,True)", "self['low']=np.zeros(nbin,dtype='f8')",
+                         "self['high']=np.zeros(nbin,dtype='f8')",
+                         "foriinrange(nbin):\nifrev[i]!=rev[i+1]:\nw=rev[rev[i]:rev[i+1]]\nw=self['wsort'][w]\nrev[rev[i]:rev[i+1]]=w\n"
+                         "self['low'][i]=self.x[w[0]]\nself['high'][i]=self.x[w[-1]]",
+                         "self['hist']=hist", "self['rev']=rev", "self['nperbin']=nperbin"],
+        "_merge_last": ["rev=self['rev']", "nbin=self['hist'].size", None, "hist=self['hist'][0:nbin-1]", "low=self['low'][0:nbin-1]",
+                        "high=self['high'][0:nbin-1]", "hist[-1]=self['hist'][-2]+self['hist'][-1]", "low[-1]=self['low'][-2]",
+                        "high[-1]=self['high'][-1]", "r2=rev[0:rev.size-1]", "r2[nbin-1]=rev[nbin]", "r2[nbin:]=rev[nbin+1:]",
+                        "r2[0:nbin]-=1", "self['hist']=hist", "self['rev']=r2", "self['low']=low", "self['high']=high"],
+    }
+    for name, want in pins.items():
+        got = [_u(t) for t in _body(_find_class_func(tree, "Binner", name))]
+        if name == "_hist_by_num":
+            got = got[:-1]
+        if len(got) != len(want) or any(w is not None and g != w for g, w in zip(got, want)):
+            raise TranslateError("%s: the statement sequence changed (pinned, not translated)" % name)
+    return sk
+
+
+def skel_term(sk):
+    b = lambda v: "true" if v else "false"      # noqa
+    return ("if src_skel_agrees (mkSkel %s %s %s %s %s %s %s %s %s %s %s %s %s %s %s %s %s %s) then 0 else 1" % (
+        b(sk["clear_first"]), b(sk["y_forces_rev"]), b(sk["w_forces_rev"]), b(sk["limits_first"]), sk["binner_order"],
+        sk["none_error"], sk["hist_default_bs"], b(sk["hist_nbin_over_bs"]), b(sk["more_forces_rev"]), sk["edges"],
+        b(sk["num_skips_edges"]), b(sk["stats_iff_rev"]), sk["no_hist_error"], sk["single_size"], sk["merge_min"],
+        b(sk["merge_if_last_differs"]), sk["len_errors"], sk["empty_sel_error"]))
+
+
+def read_skel(impl_dir):
+    p = os.path.join(impl_dir, "esutil", "stat", "util.py")
+    try:
+        return extract_skel(open(p).read())
+    except OSError as e:
+        raise TranslateError("cannot read %s: %s" % (p, e))
+    except SyntaxError as e:
+        raise TranslateError("util.py does not parse: %s" % e)
+    except (IndexError, KeyError, AttributeError) as e:
+        raise TranslateError("util.py no longer has the expected shape (%s: %s)" % (type(e).__name__, e))
